@@ -124,11 +124,13 @@ def enumCfgOfField (objCfg : Cfg) (f : Field) : Field :=
   | some (.enum e t) => { f with conv := some (.enum { e with cfg := Cfg.combine f.cfg objCfg } t) }
   | _ => f
 
-/-- The step the callback performs at one object. The code pops **one** stack entry when the depth
-    decreases (`if`, not `while`) and then sets `current_depth = depth`. -/
+/-- The step the callback performs at one object: `while depth < current_depth { pop; current_depth -= 1 }`,
+    then combine the object's own cfg with the top of the stack. -/
 def cfgStep (w : CfgWalk) (depth : Nat) (own : Cfg) : M (Cfg × CfgWalk) := do
   let w1 : CfgWalk :=
-    if depth < w.currentDepth then { currentDepth := depth, stack := w.stack.tail } else w
+    if depth < w.currentDepth then
+      { currentDepth := depth, stack := w.stack.drop (w.currentDepth - depth) }
+    else w
   match w1.stack.head? with
   | none => throw (.panic "cfg_stack_empty")
   | some top => pure (Cfg.combine own top, w1)
@@ -219,7 +221,7 @@ def namesUnique (d : Device) : M Device := do
     above the previously *seen* value whatever the previous variant's kind; `default` and
     `catch_all` are assigned a number too but keep their kind. Returns the rewritten variants and
     the `seen_values` list (value, id display). -/
-def assignValues : List EnumVariant → Option Int → List EnumVariant × List (Int × String)
+def assignValues : List EnumVariant → Option Int → List EnumVariant × List (Int × String × Cfg)
   | [], _ => ([], [])
   | v :: vs, last =>
     let next : Int := match last with | some l => l + 1 | none => 0
@@ -229,16 +231,16 @@ def assignValues : List EnumVariant → Option Int → List EnumVariant × List 
       | .default => (v, next)
       | .catchAll => (v, next)
     let (rest, seen) := assignValues vs (some val)
-    (v' :: rest, (val, uniqueIdDisplay v.name v.cfg) :: seen)
+    (v' :: rest, (val, v.name, v.cfg) :: seen)
 
-/-- `Itertools::duplicates`: every element that occurs more than once, once, in the order in which
-    its second occurrence appears. -/
-def duplicatesOf {α : Type} [BEq α] : List α → List α → List α → List α
+/-- `Itertools::duplicates_by(key)`: every element whose key occurred before, once per key, in the
+    order in which the second occurrence of the key appears. -/
+def duplicatesBy {α κ : Type} [BEq κ] (key : α → κ) : List α → List κ → List κ → List α
   | [], _, _ => []
   | x :: xs, seenOnce, reported =>
-    if reported.contains x then duplicatesOf xs seenOnce reported
-    else if seenOnce.contains x then x :: duplicatesOf xs seenOnce (x :: reported)
-    else duplicatesOf xs (x :: seenOnce) reported
+    if reported.contains (key x) then duplicatesBy key xs seenOnce reported
+    else if seenOnce.contains (key x) then x :: duplicatesBy key xs seenOnce (key x :: reported)
+    else duplicatesBy key xs (key x :: seenOnce) reported
 
 /-- `(0..=highest).all(|val| seen.any(|s| s == val))` — decided without iterating 2^w values:
     every pattern is listed iff the listed values inside `[0, highest]` number `highest + 1`
@@ -257,17 +259,23 @@ def checkEnumField (objName : String) (f : Field) : M Field :=
     let highest : Int := 2 ^ bits - 1
     if e.variants.isEmpty then throw (passErr "enum_empty" [e.name])
     let (variants, seen) := assignValues e.variants none
-    let dups := duplicatesOf seen [] []
+    -- two variants clash when they get the same number under the same cfg
+    let dups := duplicatesBy (fun (x : Int × String × Cfg) => (x.1, x.2.2)) seen [] []
     if !dups.isEmpty then
       throw (passErr "enum_dup_value"
-        ([e.name, objName, f.name] ++ dups.map fun (num, name) => s!"{name}: {num}"))
+        ([e.name, objName, f.name] ++ dups.map fun (num, name, cfg) => s!"{uniqueIdDisplay name cfg}: {num}"))
     let hasFallback := e.variants.any fun v => v.value == .default || v.value == .catchAll
     let covered := bitsCovered highest (seen.map (·.1))
     let style : GenStyle := if hasFallback || covered then .infallible bits else .fallible
     match seen.find? (fun (v, _) => v > highest) with
-    | some (v, name) =>
-      throw (passErr "enum_value_too_high" [name, e.name, objName, f.name] [v, highest])
+    | some (v, name, cfg) =>
+      throw (passErr "enum_value_too_high" [uniqueIdDisplay name cfg, e.name, objName, f.name] [v, highest])
     | none => pure ()
+    if f.base != .int then
+      match seen.find? (fun (v, _) => v < 0) with
+      | some (v, name, cfg) =>
+        throw (passErr "enum_value_too_low" [uniqueIdDisplay name cfg, e.name, objName, f.name] [v, 0])
+      | none => pure ()
     if (e.variants.filter (·.value == .default)).length ≥ 2 then
       throw (passErr "enum_multi_default" [e.name, objName, f.name])
     if (e.variants.filter (·.value == .catchAll)).length ≥ 2 then
@@ -375,7 +383,7 @@ def resetValuesConverted (d : Device) : M Device := do
     | .ref rf => match rf.override with
       | .register ov => match ov.reset with
         | some rv => do
-          -- `search_object(..).expect(..).as_register().expect(..)`: runs before refs_validated
+          -- `search_object(..).expect(..).as_register().expect(..)` (refs_validated has run before)
           let base ← match searchObject ov.name d.objects with
             | some (.register b) => pure b
             | _ => throw (.panic "reset_expect_ref")
@@ -484,13 +492,14 @@ def refsValidated (d : Device) : M Device := do
       | .ref r => if sel r.override then mapInsert m r.override.name r.name else m
       | _ => m) []
   let real (sel : Object → Bool) : List String := (objs.filter sel).map (·.name)
+  -- the maps are `BTreeMap`s: iteration is by increasing target name
   let check (kind : String) (refs : List (String × String)) (reals : List String) : M Unit := do
     let bad := refs.filter fun (target, _) => !reals.contains target
     match bad with
     | [] => pure ()
-    | (target, reffer) :: _ =>
-      throw (.error { stage := "pass", kind := kind, names := [reffer, target],
-                      alts := bad.map fun (t, r) => [r, t] })
+    | b :: bs =>
+      let (target, reffer) := bs.foldl (fun m x => if x.1 < m.1 then x else m) b
+      throw (.error { stage := "pass", kind := kind, names := [reffer, target] })
   check "unknown_ref_block" (reffed fun | .block _ => true | _ => false)
     (real fun | .block _ _ => true | _ => false)
   check "unknown_ref_register" (reffed fun | .register _ => true | _ => false)
@@ -574,9 +583,8 @@ def addressTypesBigEnough (d : Device) : M Device := do
     the source by the extractor and compared with `passOrder`. -/
 def passOrder : List String :=
   ["propagate_cfg", "names_normalized", "names_unique", "enum_values_checked",
-   "byte_order_specified", "reset_values_converted", "bool_fields_checked",
-   "bit_ranges_validated", "refs_validated", "address_types_specified",
-   "address_types_big_enough"]
+   "byte_order_specified", "refs_validated", "reset_values_converted", "bool_fields_checked",
+   "bit_ranges_validated", "address_types_specified", "address_types_big_enough"]
 
 def runPasses (n : Names) (d : Device) : M Device := do
   let d ← propagateCfg d
@@ -584,10 +592,10 @@ def runPasses (n : Names) (d : Device) : M Device := do
   let d ← namesUnique d
   let d ← enumValuesChecked d
   let d ← byteOrderSpecified d
+  let d ← refsValidated d
   let d ← resetValuesConverted d
   let d ← boolFieldsChecked d
   let d ← bitRangesValidated d
-  let d ← refsValidated d
   let d ← addressTypesSpecified d
   let d ← addressTypesBigEnough d
   pure d
